@@ -1366,3 +1366,89 @@ Proof. intros o p T Ho Hwf. apply get_go_file_perm; [exact Ho | apply wf_pkgb_wf
 Theorem decl_file_declares : forall p f t, wf_pkgb p = true -> In f (p_files p) -> In t (top_specs f) ->
   decl_file p (ts_name t) = f_name f.
 Proof. intros p f t Hwf. apply decl_file_spec. apply wf_pkgb_wf. exact Hwf. Qed.
+
+(* ------------------------- the class of K_star_no_generate_line, in general *)
+
+(* -file / -type=* without -sep, computed without any assumption on //go:generate lines *)
+Lemma run_listed_merged : forall o c fl p, perm_oracle o -> wf p ->
+  fl_specified fl = false -> fl_sep fl = false -> file_arg_ok fl p = true ->
+  existsb (test_node_list c) (local_specs p) = false ->
+  run o c fl p =
+  match spec_selection c fl p with
+  | [] => Done [] (o _ [])
+  | sel => let n := all_in_one_name c (if fl_file fl =? "" then all_in_one_file fl p else fl_file fl) in
+           Done [(n, sel)] (o _ [n])
+  end.
+Proof.
+  intros o c fl p Ho W Hsp Hsep Hfa Hloc.
+  set (pool := if fl_file fl =? "" then pkg_specs p else file_named p (fl_file fl)).
+  assert (Hpool : forall t, In t pool -> In t (pkg_specs p)).
+  { intros t Ht. unfold pool in Ht. destruct (fl_file fl =? ""); [exact Ht|].
+    destruct (file_named_in p _ t Ht) as [f [Hf [_ Htf]]]. eapply top_specs_in_pkg; eassumption. }
+  assert (Hlist : list_types c fl p = map ts_name (filter (test_node_list c) pool)).
+  { unfold pool. destruct (fl_file fl =? "") eqn:Ef.
+    - apply String.eqb_eq in Ef. apply list_types_all; assumption.
+    - apply String.eqb_neq in Ef. apply list_types_file; assumption. }
+  assert (Hnofatal : forall T d, In T (map ts_name (filter (test_node_list c) pool)) ->
+            make_data c p (fl_specified fl) T <> MFatal d).
+  { intros T d HT. rewrite Hsp. eapply listed_no_fatal; eassumption. }
+  unfold run. rewrite (check_file_arg_ok fl p Hfa). unfold run_loaded. rewrite Hsp, Hlist.
+  rewrite gen_loop_merge by assumption. rewrite Hsp, filter_keep_listable by assumption.
+  unfold spec_selection. fold pool. simpl.
+  destruct (map ts_name (filter (listable c p) pool)) as [|T0 sel']; [reflexivity|].
+  rewrite file_name_all. reflexivity.
+Qed.
+
+Lemma trim_go_head : forall n, visible_file n = true -> exists ch r, trim_go n = String ch r /\ ch <> "."%char.
+Proof.
+  intros [|ch n'] H; [discriminate|]. unfold visible_file in H. rewrite !andb_true_iff in H. destruct H as [[_ H] _].
+  apply negb_true_iff in H. destruct (Ascii.eqb ch ".") eqn:E.
+  - apply Ascii.eqb_eq in E. subst ch.
+    assert (C : has_prefix "." (String "." n') = true) by (unfold has_prefix; simpl; apply prefix_empty).
+    rewrite C in H. discriminate H.
+  - exists ch, (trim_go n'). split.
+    + simpl. rewrite E. reflexivity.
+    + intros C. subst ch. discriminate E.
+Qed.
+
+Lemma dot_name_unanchored : forall c p, wf p -> anchored c p (all_in_one_name c "") = false.
+Proof.
+  intros c p W. unfold anchored. apply existsb_false_forall. intros f Hf.
+  destruct (trim_go_head (f_name f) (wf_visible p W f Hf)) as [ch [r [Ht Hne]]]. rewrite Ht.
+  unfold has_prefix, all_in_one_name. simpl. destruct (ascii_dec ch "."); [contradiction | reflexivity].
+Qed.
+
+(* `-type=*` in a package where no //go:generate line ends with the command
+   line: whenever something is eligible, ALL of it goes to the dot-file
+   .shoot<cmd>.go, which is not named after any source file (and which the go
+   tool ignores) -- for every well-formed package, not only the witness *)
+Theorem star_without_generate_line : forall o c fl p, perm_oracle o -> wf_pkgb p = true ->
+  fl_specified fl = false -> fl_sep fl = false -> fl_file fl = "" -> all_in_one_file fl p = "" ->
+  existsb (test_node_list c) (local_specs p) = false -> spec_selection c fl p <> [] ->
+  run o c fl p = Done [("." ++ shootcmd c ++ ".go", spec_selection c fl p)] (o _ ["." ++ shootcmd c ++ ".go"]) /\
+  anchored c p ("." ++ shootcmd c ++ ".go") = false /\
+  meets c p (run o c fl p) (spec c fl p) = false.
+Proof.
+  intros o c fl p Ho Hwf Hsp Hsep Hf Haio Hloc Hne. apply wf_pkgb_wf in Hwf.
+  assert (Hfa : file_arg_ok fl p = true) by (unfold file_arg_ok; rewrite Hf; reflexivity).
+  pose proof (run_listed_merged o c fl p Ho Hwf Hsp Hsep Hfa Hloc) as R.
+  rewrite Hf, Haio in R. simpl in R.
+  pose proof (dot_name_unanchored c p Hwf) as U. unfold all_in_one_name in U. simpl in U.
+  destruct (spec_selection c fl p) as [|T0 sel'] eqn:Es; [contradiction|].
+  unfold all_in_one_name in R. simpl in R. split; [exact R|]. split; [exact U|].
+  rewrite R. destruct (spec c fl p); [reflexivity|]. simpl. rewrite U. rewrite !andb_false_r. reflexivity.
+Qed.
+
+(* the class of K_enum_missing_silent, in general: an explicitly named type that
+   `shoot enum` cannot generate for, that is no alias and has no typed
+   constants (missing, a struct, an integer type without constants, ...) is
+   skipped by the loop -- no diagnostic, no file for it, the run goes on *)
+Theorem enum_unknown_name_skipped : forall p b T,
+  nameable CEnum p T = false -> alias_named p T = false -> consts_of p T = 0 ->
+  make_data CEnum p b T = MSkip.
+Proof.
+  intros p b T _ Ha Hc. simpl. rewrite enum_walk_ok.
+  - rewrite <- consts_of_all, Hc. reflexivity.
+  - rewrite <- alias_named_walk. exact Ha.
+  - right. rewrite <- consts_of_all. exact Hc.
+Qed.
